@@ -69,6 +69,10 @@ var victimBin string
 
 const singleCPUWorker = 5
 
+// this worker's proxy runs with sub-second HTTP read/write timeouts, so that the per-stream
+// timers fire while streams are still open
+const shortTimeoutWorker = 4
+
 func startVictim(id int, sched string) (*victim, error) {
 	scratch := os.Getenv("VERIF_SCRATCH")
 	v := &victim{id: id, sched: sched, exited: make(chan struct{})}
@@ -79,6 +83,9 @@ func startVictim(id int, sched string) (*victim, error) {
 	}
 	v.cmd = exec.Command(victimBin)
 	v.cmd.Env = append(os.Environ(), "VICTIM_SCHEDULER="+sched)
+	if id == shortTimeoutWorker {
+		v.cmd.Env = append(v.cmd.Env, "VICTIM_TIMEOUTS=short")
+	}
 	if id == singleCPUWorker {
 		// a single-CPU deployment: process-wide pools and caches are then shared by every
 		// connection's goroutines, which makes cross-connection contamination deterministic
@@ -306,6 +313,8 @@ func execCase(v *victim, tc *tcase) {
 		session(c, tc.Proto)
 	case "stalled-download-reset":
 		stalledDownloadReset(c)
+	case "h2-held-streams":
+		heldStreams(c, tc.Offset)
 	case "stall":
 		// advance to the step, then stay silent with the connection open while a control client must be served
 		stallAt(c, tc.Step)
@@ -352,6 +361,58 @@ func stalledDownloadReset(c net.Conn) {
 	time.Sleep(400 * time.Millisecond)                    // the proxy's write of a DATA frame is now blocked
 	t.Write(h2peer.RawFrame(3, 0, 1, []byte{0, 0, 0, 8})) // RST_STREAM(CANCEL): the handler stops waiting
 	time.Sleep(900 * time.Millisecond)                    // the stalled write fails meanwhile
+}
+
+// heldStreams: HTTP/2 requests of several shapes whose responses cannot complete (the client
+// grants no flow-control window) are held open for longer than the proxy's read and write
+// timeouts, so that the per-stream timers fire on streams in every shape.
+func heldStreams(c net.Conn, variant int) {
+	t := tls.Client(c, &tls.Config{InsecureSkipVerify: true, ServerName: "front.example", NextProtos: []string{"h2"}})
+	c.SetDeadline(time.Now().Add(10 * time.Second))
+	if t.Handshake() != nil {
+		return
+	}
+	var b bytes.Buffer
+	b.WriteString(h2peer.ClientPreface)
+	b.Write(h2peer.RawFrame(4, 0, 0, []byte{0, 4, 0, 0, 0, 0})) // INITIAL_WINDOW_SIZE 0: responses with a body cannot finish
+	shapes := [][]hpack.HeaderField{
+		{{Name: ":method", Value: "GET"}},
+		{{Name: ":method", Value: "GET"}, {Name: "trailer", Value: "x-t"}},
+		{{Name: ":method", Value: "GET"}, {Name: "te", Value: "trailers"}},
+		{{Name: ":method", Value: "POST"}, {Name: "content-length", Value: "0"}},
+		{{Name: ":method", Value: "POST"}, {Name: "trailer", Value: "x-t"}, {Name: "content-length", Value: "0"}},
+		{{Name: ":method", Value: "HEAD"}, {Name: "trailer", Value: "x-a, x-b"}},
+		{{Name: ":method", Value: "POST"}, {Name: "content-length", Value: "10"}}, // body never sent
+		{{Name: ":method", Value: "POST"}, {Name: "trailer", Value: "x-t"}},       // body and trailers never sent
+		{{Name: ":method", Value: "PUT"}, {Name: "expect", Value: "100-continue"}, {Name: "content-length", Value: "5"}},
+	}
+	sid := uint32(1)
+	for k := 0; k < len(shapes); k++ {
+		sh := shapes[(k+variant)%len(shapes)]
+		var hb bytes.Buffer
+		enc := hpack.NewEncoder(&hb)
+		endStream := true
+		for _, f := range sh {
+			if f.Name == "content-length" && f.Value != "0" || (f.Name == "trailer" && sh[0].Value == "POST" && len(sh) == 2) {
+				endStream = false
+			}
+		}
+		fields := append([]hpack.HeaderField{sh[0], {Name: ":scheme", Value: "https"}, {Name: ":authority", Value: "front.example"}, {Name: ":path", Value: "/big"}}, sh[1:]...)
+		for _, f := range fields {
+			enc.WriteField(f)
+		}
+		flags := uint8(0x4)
+		if endStream {
+			flags |= 0x1
+		}
+		b.Write(h2peer.RawFrame(1, flags, sid, hb.Bytes()))
+		sid += 2
+	}
+	if _, err := t.Write(b.Bytes()); err != nil {
+		return
+	}
+	go io.Copy(io.Discard, t)
+	time.Sleep(1800 * time.Millisecond) // longer than the proxy's 700 ms read and 900 ms write timeouts
 }
 
 // boundaryFrames: every small HEADERS / DATA / PUSH_PROMISE frame around the padding and
@@ -637,6 +698,9 @@ func main() {
 	for rep := 0; rep < run.Pick(5, 40); rep++ {
 		single = append(single, &tcase{Class: "stalled-download-reset", Proto: "h2", Fault: &rig.FaultPlan{Kind: "stall-write", MinLen: 8000, StallMs: 900}})
 	}
+	for rep := 0; rep < run.Pick(3, 18); rep++ {
+		single = append(single, &tcase{Class: "h2-held-streams", Proto: "h2", Offset: rep})
+	}
 	for _, raw := range boundaryFrames() {
 		batched = append(batched, &tcase{Class: "post-handshake-bytes", Proto: "h2", raw: raw})
 	}
@@ -732,6 +796,10 @@ func main() {
 					if w != singleCPUWorker {
 						continue
 					}
+				} else if tc.Class == "h2-held-streams" {
+					if w != shortTimeoutWorker {
+						continue
+					}
 				} else if i%nw != w {
 					continue
 				}
@@ -819,6 +887,8 @@ func describe(tc *tcase) string {
 		return fmt.Sprintf("panic in %s (%s)", tc.Panic, tc.Proto)
 	case "stall":
 		return "client stalled at " + tc.Step
+	case "h2-held-streams":
+		return fmt.Sprintf("h2 streams of 9 request shapes held open past the read/write timeouts (rotation %d)", tc.Offset)
 	case "stalled-download-reset":
 		return "h2 client stalls a 48 MiB download, resets the stream, then resets the connection"
 	}
